@@ -145,6 +145,9 @@ func parseMethodLine(ctx *context, c *Converter, m *Method, value string) (err e
 	case "ignore":
 		fieldSetting = true
 		fields := strings.Fields(rest)
+		if len(fields) == 0 {
+			return fmt.Errorf("missing field name")
+		}
 		for _, f := range fields {
 			if existing := m.Field(f); existing.Source != "" || existing.Function != nil {
 				return fmt.Errorf("the field %q is already configured by a goverter:map setting", f)
